@@ -149,6 +149,8 @@ def cases(tier, seed):
     for blocks in (['XYX'], ['XYXZYX'], ['XY', 'ZX', 'XY'], ['XXYXX', 'Y']):
         for enc in (False, True):
             out.append(dict(base, min=16, max=16, sizes=[16 * len(b) for b in blocks], blocks=blocks, encrypted=enc))
+    # files around the 16 MiB read size of the snapshot stream (exactly one read, one read plus a tail, two reads)
+    out.append(dict(base, min=1 << 20, max=1 << 21, sizes=[(1 << 24) + 70001, 3, 1 << 24], concurrent=3))
     # a directory reachable by two routes inside the argument (symlinked sibling)
     out.append(dict(base, sizes=[30, 70, 5, 0], nested=True, alias=True))
     out.append(dict(base, sizes=[64, 1], nested=True, alias=True, encrypted=True, concurrent=1))
